@@ -283,8 +283,6 @@ Section MemberNoiseFacts.
 End MemberNoiseFacts.
 
 (* ---- stream positions (the generator's contract: drawing a+b samples = drawing a, then b) ---------------- *)
-Definition block_positions (n i : nat) : list nat := seq (i * n) n.
-Definition column_positions (n nens ii : nat) : list nat := map (fun r => (r * nens + ii)%nat) (seq 0 n).
 
 Lemma member_blocks_disjoint : forall n i j p, i <> j ->
   In p (block_positions n i) -> ~ In p (block_positions n j).
@@ -366,13 +364,12 @@ Section MemberFacts.
   Variable sift_fn : option nat -> W -> option (list W).
 
   Local Notation swn := (sift_with_noise W wadd wsub whalf SC wscale sift_fn).
+  Local Notation scaled := (scaled W SC wscale).
   Local Notation ens_blocks := (ensemble_of_blocks W wzero wadd wsub whalf wmean SC wscale sift_fn).
-
-  Definition scaled (s : option SC) (noise : W) : W := match s with Some k => wscale k noise | None => noise end.
 
   Lemma single_member_spec : forall cap X s noise,
     swn Single cap X s noise = sift_fn cap (wadd X (scaled s noise)).
-  Proof. intros cap X s noise. unfold sift_with_noise, scaled. destruct (sift_fn cap _); reflexivity. Qed.
+  Proof. intros cap X s noise. unfold sift_with_noise. destruct (sift_fn cap _); reflexivity. Qed.
 
   (* flip mode: defined exactly when both decompositions are and have the same number of columns; then every
      column is half of (column of sift(X + n) + column of sift(X - n)) *)
@@ -382,7 +379,7 @@ Section MemberFacts.
                 length a = length b /\ length r = length a /\
                 forall k, (k < length a)%nat -> nth k r wzero = whalf (wadd (nth k a wzero) (nth k b wzero)).
   Proof.
-    intros cap X s noise r H. unfold sift_with_noise in H. fold (scaled s noise) in H.
+    intros cap X s noise r H. unfold sift_with_noise in H. cbv zeta in H.
     destruct (sift_fn cap (wadd X (scaled s noise))) as [a|] eqn:Ea; [|discriminate].
     destruct (sift_fn cap (wsub X (scaled s noise))) as [b|] eqn:Eb; [|discriminate].
     destruct (Nat.eqb_spec (length a) (length b)) as [Hl|Hl]; [|discriminate].
@@ -400,7 +397,7 @@ Section MemberFacts.
      exists a b, sift_fn cap (wadd X (scaled s noise)) = Some a /\ sift_fn cap (wsub X (scaled s noise)) = Some b /\
                  length a <> length b).
   Proof.
-    intros cap X s noise. unfold sift_with_noise. fold (scaled s noise).
+    intros cap X s noise. unfold sift_with_noise. cbv zeta.
     destruct (sift_fn cap (wadd X (scaled s noise))) as [a|] eqn:Ea.
     - destruct (sift_fn cap (wsub X (scaled s noise))) as [b|] eqn:Eb.
       + destruct (Nat.eqb_spec (length a) (length b)) as [Hl|Hl].
@@ -479,7 +476,7 @@ Section MemberFacts.
     Lemma member_zero_noise : forall m cap X b r,
       wf X -> wf b -> sift_fn cap X = Some r -> swn m cap X (Some zero) b = Some r.
     Proof.
-      intros m cap X b r HX Hb Hr. unfold sift_with_noise.
+      intros m cap X b r HX Hb Hr. unfold sift_with_noise, Ensemble.scaled.
       rewrite (scale0 b Hb), (add0 X HX), (sub0 X HX), Hr.
       destruct m; [reflexivity|]. rewrite Nat.eqb_refl.
       rewrite (half_double_cols r (sift_wf cap X r HX Hr)). reflexivity.
@@ -685,7 +682,7 @@ Section CeemdFacts.
       fimf m s X wzero = first_sift W sift_fn X.
     Proof.
       intros m s [x|] HX Hs; [|reflexivity]. cbn [owf] in HX. cbn [first_imf first_sift].
-      unfold sift_with_noise.
+      unfold sift_with_noise, Ensemble.scaled.
       assert (Hnz : match s with Some k => wscale k wzero | None => wzero end = wzero).
       { destruct Hs as [->| ->]; [reflexivity|apply scale0; exact wf_zero]. }
       rewrite Hnz, (add0 x HX), (sub0 x HX).
@@ -1021,8 +1018,6 @@ Section Distinct.
 End Distinct.
 
 (* ---- concrete runs ---------------------------------------------------------------------------------------------- *)
-Definition c08_cfg : list Z := [0; 0; 20; 1; 1; 0; 1; 8; 1; 16; 1; 2; 1; 16; 1; 2; 0].
-Definition c08_sig : list Z := [0; 40; -36; 44; -28; 36; -40; 32; -20; 12; 0; 24; -16; 8; 28; -32; 16; -4; 36; -24].
 
 (* the toy generator: 8 members x 16 samples, the blocks are pairwise different (bounded instance of the contract) *)
 Lemma toy_blocks_differ_example :
